@@ -255,6 +255,28 @@ def extract_timers():
         for fn in ("spawn_response_loop", "fail_all_pending"):
             if re.search(rx, fn_body(src, fn)):
                 clean = False
+        # the async reader's `select!` has exactly two arms (shutdown signal, the read): any further arm would
+        # cancel the read future while a frame is half read, and `read_message_async` is not cancel-safe
+        loop_body = fn_body(src, "spawn_response_loop")
+        sel = re.search(r"select!\s*\{", loop_body)
+        if sel:
+            from rustlex import match_brace
+            end = match_brace(loop_body, sel.end() - 1)
+            depth, arms = 0, 0
+            blk = loop_body[sel.end():end - 1]
+            i = 0
+            while i < len(blk):
+                ch = blk[i]
+                if ch in "{([":
+                    depth += 1
+                elif ch in "})]":
+                    depth -= 1
+                elif depth == 0 and blk.startswith("=>", i):
+                    arms += 1
+                    i += 1
+                i += 1
+            if arms != 2:
+                clean = False
         imp = impl_block(src, r"impl " + ty + r"\s*\{")
         for fn in ("connect", "connect_with_limits"):
             try:
